@@ -124,6 +124,22 @@ def mem_term(mc):
     return "(%s, %s)" % (rows, coq_list(ms))
 
 
+def stat_tuple(s):
+    return "(0%%nat, %s, %s, %s, %s, %s, %s, %s, %s)" % (
+        coq_z(KIND[s["f"]]), "true" if s["set"] else "false", coq_z(s["count"]),
+        "(Some %s)" % coq_z(s["sum"]) if s["hassum"] else "None",
+        opt_pair(not s["hasmm"], s["min"], s["mint"]), opt_pair(not s["hasmm"], s["max"], s["maxt"]),
+        opt_pair(not s["set"] or s["firstt"] < 0, s["first"], s["firstt"]), opt_pair(not s["set"] or s["lastt"] < 0, s["last"], s["lastt"]))
+
+
+def rows1(rows):
+    return coq_list(["(%s, %s)" % (coq_z(r["t"]), "None" if r["v"][0] is None else "(Some %s)" % coq_z(r["v"][0])) for r in (rows or [])])
+
+
+def agg_term(ac):
+    return "(%s, %s, %s)" % (rows1(ac["a"]), rows1(ac["b"]), stat_tuple(ac["got"]))
+
+
 HDR = ("From Coq Require Import ZArith List Bool. From OG Require Import C09.Model C09.ChunkModel C09.Corr.\n"
        "Import ListNotations. Open Scope Z_scope.\n")
 
@@ -172,7 +188,8 @@ def main(ck):
     ck.cov["trusted_base"] = ["Coq 8.16.1 kernel + vm_compute (case evaluation, Examples, refutation witnesses)",
                               "Go harness cmd/c09 + internal/tsdrv, python driver props/C09/run.py",
                               "engine/verif_export_c02.go, engine/verif_export_c09.go, engine/verif_export_c09_stats.go, "
-                              "engine/immutable/verif_export_c09.go (thin wrappers)"]
+                              "engine/immutable/verif_export_c09.go (thin wrappers)",
+                              "coq/C07/ModelStats.v int_build (imported by C09/Corr.v for the cross-check of integer column statistics)"]
     ck.coq_audit(["C09"])
     ok = ck.coq_build(["C09/Corr.vo", "C09/Proofs.vo", "C09/ListSpec.vo", "C09/ChunkProofs.vo", "C09/BucketProofs.vo"])
     if ok:
@@ -193,10 +210,12 @@ def main(ck):
         rc, out = ck.run([binp, str(n)], timeout=3000, env={"VERIF_CORPUS": corpus})
         n += len([f for f in os.listdir(corpus) if f.endswith(".case")]) if os.path.isdir(corpus) else 0
     hs = [json.loads(l) for l in out.splitlines() if l.startswith('{"case"')]
-    mems = []
+    mems, aggs = [], []
     for l in out.splitlines():
         if l.startswith('{"memcases"'):
             mems = json.loads(l)["memcases"] or []
+        if l.startswith('{"aggcases"'):
+            aggs = json.loads(l)["aggcases"] or []
     if rc != 0 or len(hs) != n:
         ck.broken.append("harness c09 failed rc=%d histories=%d/%d: %s" % (rc, len(hs), n, out[-600:]))
         if not hs:
@@ -272,6 +291,17 @@ def main(ck):
                           "Definition M := Eval vm_compute in bucket_mismatches cases.\nPrint M.\n" % ";\n".join(bterms)))
         if ncanary:
             files.append(("c09canary", canary_txt))
+        eterms = ["(%s, %s, %s)" % tuple("true" if x else "false" for x in (bool(c["bucket"]), bool(c["filter"]), bool(c.get("schema_preagg"))))
+                  for h in hs for c in (h.get("checks") or []) if not (c.get("fail") or "").endswith("error") and "schema_preagg" in c]
+        if eterms:
+            # canary (last case): a bucketed statement the schema calls eligible - must be reported
+            files.append(("c09elig", HDR + "Definition cases : list (bool * bool * bool) := [\n%s\n].\n"
+                          "Definition M := Eval vm_compute in eligible_mismatches cases.\nPrint M.\n" % ";\n".join(eterms + ["(true, false, true)"])))
+        if aggs:
+            # the last case is a canary: two containers with one value each and a combined count of 3 - it must be reported
+            gcan = "([(1, Some 4)], [(2, Some 6)], (0%nat, 0, true, 3, Some 10, Some (4, 1), Some (6, 2), Some (4, 1), Some (6, 2)))"
+            files.append(("c09agg", HDR + "Definition cases : list agg_case := [\n%s\n].\n"
+                          "Definition M := Eval vm_compute in agg_mismatches cases.\nPrint M.\n" % ";\n".join([agg_term(a) for a in aggs] + [gcan])))
         if aterms:
             # the last case is a canary: last() = 5 at t=2 whose aux is the aux of ANOTHER row - it must be reported
             acan = "(5, [(1, 9, Some 1); (2, 5, Some 2)], 5, Some 1)"
@@ -279,6 +309,7 @@ def main(ck):
                           "Definition M := Eval vm_compute in aux_mismatches cases.\nPrint M.\n" % ";\n".join(aterms + [acan])))
     model_bad = set()
     aux_model_bad = None
+    agg_model_bad = None
     chunk_res = {}   # (global chunk idx) -> {kind: set(idx)}
     mem_res = {}
     model_ok = ok
@@ -298,6 +329,22 @@ def main(ck):
                     continue
                 for x in re.findall(r"(\d+)(?:%nat)?", m.group(1)):
                     model_bad.add(k * shard + int(x))
+            elif files[k][0] == "c09elig":
+                lst = parse_natlist(o) if rc2 == 0 else None
+                if lst is None or len(eterms) not in lst:
+                    ck.broken.append("C09 eligibility model evaluation failed or its canary was not reported: %s" % o[-400:])
+                    model_ok = False
+                elif set(lst) - {len(eterms)}:
+                    ck.broken.append("C09 eligibility: the model's `eligible` and the shard's QuerySchema.MatchPreAgg disagree on %d statements "
+                                     "(first: case index %d)" % (len(lst) - 1, min(set(lst) - {len(eterms)})))
+                ck.cov["eligibility_statements_compared"] = len(eterms)
+            elif files[k][0] == "c09agg":
+                lst = parse_natlist(o) if rc2 == 0 else None
+                if lst is None or len(aggs) not in lst:
+                    ck.broken.append("C09 combine model evaluation failed or its canary was not reported: %s" % o[-400:])
+                    model_ok = False
+                else:
+                    agg_model_bad = set(lst) - {len(aggs)}
             elif files[k][0] == "c09aux":
                 lst = parse_natlist(o) if rc2 == 0 else None
                 if lst is None or len(aterms) not in lst:
@@ -429,6 +476,10 @@ def main(ck):
             ck.broken.append("C09 chunk theorems: their hypotheses (non-empty segments, strictly ascending times, stored segment ranges = "
                              "first/last time of the segment) do not hold for file seq %d series %d of history %d" % (ch["seq"], ch["series"], h["case"]))
             ck.nofail_detail = ctx
+        if model_ok and 4 in res:
+            ck.broken.append("C09/C07 cross-check: C07's builder model (int_build over the decoded segments) and C09's build_stats disagree on an "
+                             "integer column of file seq %d series %d of history %d" % (ch["seq"], ch["series"], h["case"]))
+            ck.nofail_detail = ctx
         go_bad = bool(ch.get("stat_fail"))
         if go_bad:
             report("stored-statistics", "the chunk statistics stored in the data file differ from the rows decoded from its segments: " + ch["stat_fail"], ctx)
@@ -502,6 +553,24 @@ def main(ck):
         if model_ok and rep_bad == mc["ok"]:
             ck.broken.append("correspondence C09: mem_stats_repaired and the harness oracle disagree on memtable case %d" % mi)
             ck.nofail_detail = mctx
+    # ---- combination of partial results (immutable.AggregateData vs combine)
+    agg_shared = 0
+    for ai, ac in enumerate(aggs):
+        ta = {r["t"] for r in (ac["a"] or []) if r["v"][0] is not None}
+        agg_shared += bool(ta & {r["t"] for r in (ac["b"] or []) if r["v"][0] is not None})
+        actx = {"aggcase": ac}
+        if ac.get("tie"):
+            ck.broken.append("C09 combine model: AggregateData's min/max TIME is not the earliest row carrying the value (values are right; the "
+                             "model's tie rule no longer mirrors the code): " + ac["tie"])
+            ck.nofail_detail = actx
+            continue
+        if not ac["ok"]:
+            report("combine", "immutable.AggregateData of the partial results of two containers differs from the functions over the rows of both: "
+                   + str(ac.get("why")), actx)
+        if model_ok and agg_model_bad is not None and (ai in agg_model_bad) == ac["ok"]:
+            ck.broken.append("correspondence C09: the model's combine and the harness oracle disagree on combination case %d" % ai)
+            ck.nofail_detail = actx
+    ck.cov["combine_cases"] = {"total": len(aggs), "containers_sharing_a_timestamp": agg_shared}
     for fid in open_ids:
         if known[fid] == 0 and eligible[fid] > 0:
             ck.notes.append("open finding %s did not reproduce on %d eligible queries/reads: stale (tree looks repaired)" % (fid, eligible[fid]))
@@ -534,7 +603,7 @@ def main(ck):
                                    "columns_without_values_in_their_chunk(not read at component level)": all_null}
     ck.cov["chunk_reads"] = {"total": nreads, "by_fn/order": reads_by, "variant_distinguishing_reads_matching": variant_reader}
     ck.cov["memtable_cases"] = {"total": len(mems), "variant_distinguishing_cases_matching": variant_mem}
-    ck.cov["traces_validated_against_impl"] = (len(groups) - (len(model_bad) if model_bad else 0)) + nreads + nstats + len(mems)
+    ck.cov["traces_validated_against_impl"] = (len(groups) - (len(model_bad) if model_bad else 0)) + nreads + nstats + len(mems) + len(aggs)
     ck.cov["known_finding_queries"] = known
     ck.cov["calls_per_statement"] = ncalls
     ck.cov["samples"] = [c["sql"] for h in hs[:3] for c in (h.get("checks") or [])[:2]]
